@@ -238,6 +238,12 @@ def check_created(c, files, profile, overrides):
             for ig in DEFAULT_IGNORES.get(d, []):
                 if not any(e[0] == 'IGNORE' and e[1] == ig for e in ents):
                     probs.append(f'{p}: default IGNORE {ig} missing')
+        # ... and no others: whatever else is IGNOREd in a Manifest that create has just written is not covered by anything
+        if d not in had and d not in had_gz:
+            documented = DEFAULT_IGNORES.get(d, []) if profile != 'default' else []
+            extra = sorted(e[1] for e in ents if e[0] == 'IGNORE' and e[1] not in documented)
+            if extra:
+                probs.append(f'{p}: IGNORE entries {extra} that the profile does not document for this directory')
         # entry types and hashes
         for e in ents:
             if e[0] in OX.FILE_TAGS and e[0] != 'MANIFEST':
